@@ -513,7 +513,7 @@ pub fn run(ctx: &mut Ctx) {
                 // the shared probe actor (every handler writes all its arguments into state and commands); one
                 // quiet actor: its deliveries change nothing
                 let label = format!("probe:{}:lossy={}:k={}", kind, lossy, max_crashes);
-                let m = model(vec![P::<u8>::new(false), P::<u8>::new(true)], kind, &[(0, 1, 21), (1, 0, 22), (1, 0, 23), (0, 5, 24)], lossy, max_crashes, 0);
+                let m = model(vec![P::<u8>::new(0), P::<u8>::new(1)], kind, &[(0, 1, 21), (1, 0, 22), (1, 0, 23), (0, 5, 24)], lossy, max_crashes, 0);
                 explore(ctx, &mut cov, &label, &m, 3);
             }
         }
